@@ -40,14 +40,14 @@ class P(vlib.Prop):
                   "and, for the resolver model Model/Resolver.v inside the envelope of c02_closed_partial, c09_fixpoint_resolver_partial proves that every list of the lock "
                   "entries of a result resolves — when it resolves — to exactly the same members, and that it does resolve when every member answers its own entry, no member is "
                   "excluded by a member's conflict entry and dependencies are well-formed; c09_fixpoint_resolver_refuted shows that without the second condition it does not "
-                  "(finding C09-F6, reproduced on the real code); c09_fixpoint_pinned_partial extends this to members of tagged repositories and entries name=version@tag (which entries carry a tag: unify_pin = spec_pin, only requested names; an untagged entry of a tagged member never resolves = C09-F1; it resolves when every tagged member carries its tag and is depended on by its own name only; c09_fixpoint_pinned_refuted: C09-F1 and the new C09-F8); c09_resolved_of_wf / c09_lock_image_configuration_inputs remove the well-formedness side condition for real calls; c09_unify_arch_order_lists_equal / _independent / c09_shared_lock_sorted_order_deterministic settle the order of the architectures (equal results whenever both orders succeed; same success when the architectures agree on the providers of the requested names; LockImageConfiguration a function of the set of resolutions since it sorts); c09_locked_vs_unlocked_install_order states the mechanism of C09-F5; the fixpoint is also searched for counterexamples on the real code end to end (findings C09-F1, F2, F4, F6, F7, F8). The model is tied to the code by differential comparison through a verif hook and "
+                  "(finding C09-F6, reproduced on the real code); c09_fixpoint_pinned_partial extends this to members of tagged repositories and entries name=version@tag (which entries carry a tag: unify_pin = spec_pin, only requested names; an untagged entry of a tagged member never resolves = C09-F1; it resolves when every tagged member carries its tag and is depended on by its own name only; c09_fixpoint_pinned_refuted: C09-F1 and the new C09-F8); c09_resolved_of_wf / c09_lock_image_configuration_inputs remove the well-formedness side condition for real calls; c09_unify_arch_order_lists_equal / _independent / c09_shared_lock_sorted_order_deterministic settle the order of the architectures (equal results whenever both orders succeed; same success when the architectures agree on the providers of the requested names; LockImageConfiguration a function of the set of resolutions since it sorts); c09_locked_vs_unlocked_install_order states the mechanism of C09-F5; c09_stale_lock_refused / c09_locked_and_unlocked_install_same_epoch / c09_base_image_lock_lists_what_is_installed are about the Lockfile branch of buildImage, ResolveWithBase's base filter and the installer's skip test as goextract reads them by shape (Generated/C09Build.v); the fixpoint is also searched for counterexamples on the real code end to end (findings C09-F1, F2, F4, F6, F7, F8). The model is tied to the code by differential comparison through a verif hook and "
                   "by validators evaluated in Coq on outputs of LockImageConfiguration, apko lock and apko build --lockfile.")
     level_note = ("trusted: Coq kernel, goextract, Go harness/printer, synthrepo's independent apk writer; modelled not verified: Go text of unify/LockCmd/"
                   "installablePackagesForArch/buildImageComponents, expandapk's member splitting, sets.Set/reflect.DeepEqual semantics, SetWorld's sorting; the resolver is the hand-written model of C02 (Model/Resolver.v), tied to repo.go by "
                   "C02's differential stage, and c09_fixpoint_resolver_partial holds only inside C02's envelope (one provider per name, no install_if, ...); correspondence is differential testing, not proof")
     design_ref = "DESIGN.md 7 C09"
     modelled_not_verified = ("unify, LockImageConfiguration's construction of its inputs, one lock.json entry, installablePackagesForArch and the version test of filterPackages "
-                             "are modelled by hand (Model/Lock.v), as are the visiting order of the architectures (Model/LockArchOrder.v over the generated lock_archs_order) and the origin of the two install orders (Model/LockBuild.v); regex, delimiters, formats, sentinel, range arithmetic, field copies and the shape of LockImageConfiguration's architecture loop are regenerated from the source; "
+                             "are modelled by hand (Model/Lock.v), as are the visiting order of the architectures (Model/LockArchOrder.v over the generated lock_archs_order) and the origin of the two install orders (Model/LockBuild.v); regex, delimiters, formats, sentinel, range arithmetic, field copies, the shape of LockImageConfiguration's architecture loop, the stale-lock guard, the epoch argument of both install calls, ResolveWithBase's in-base condition and the installer's skip test are regenerated from the source; "
                              "resolution, fetching, expandapk, JSON encoding and the image build are exercised end to end only")
 
 PROP = P()
